@@ -351,6 +351,17 @@ static void invert_block(uint64_t idx, void *ctx)
             for (int i = 0; i < 9; i++) m.matrix[i / 3][i % 3] = ic->al[e[i]];
             n++; invert_one(&m, &nt, q == 1234 % inner && idx % 53 == 9);
         }
+    } else if (ic->mode == 2) {
+        /* uniformly small matrices: k * B with B over {0, 1, -1, 2} and k = 2^-9 .. 2^-14: the determinant is tiny (down to 2^-42), the inverse
+         * (cofactors / determinant ~ 1/k) is perfectly representable */
+        static const int B4[4] = { 0, 1, -1, 2 };
+        int sh = 7 - (int)(idx % 6), e0 = (int)(idx / 6 % 4);            /* raw unit 2^sh = 2^(sh-16): sh = 7..2 */
+        for (uint64_t q = 0; q < 65536; q++) {
+            uint64_t kk = q; int e[9]; e[0] = e0;
+            for (int i = 1; i < 9; i++) { e[i] = (int)(kk % 4); kk /= 4; }
+            for (int i = 0; i < 9; i++) m.matrix[i / 3][i % 3] = B4[e[i]] * (1 << sh);
+            n++; invert_one(&m, &nt, q == 4321 && idx % 5 == 1);
+        }
     } else {
         int row = (int)(idx % 4); uint64_t k = idx / 4; int e[6];
         e[0] = (int)(k % ic->n); e[1] = (int)(k / ic->n % ic->n);
@@ -501,6 +512,8 @@ static void c11_run_ops(int th)
     vf_space_run(th ? "invert-3x3-A6" : "invert-3x3-A5", nb, invert_block, &i9);
     ia.al = A7X; ia.n = 7; ia.mode = 1;
     vf_space_run("invert-affine-extremes", 7 * 7 * 4, invert_block, &ia);
+    static inv_ctx iu; iu.mode = 2;
+    vf_space_run("invert-uniformly-small-matrices", 6 * 4, invert_block, &iu);
 
     static pred_ctx pc; pc.n = th ? 8 : 6; pc.outer = 4;
     uint64_t pb = 1; for (int i = 0; i < 4; i++) pb *= pc.n;
